@@ -273,6 +273,26 @@ theorem take_line (pfx command : Str) (args : List Str) (tags : C05.Tags) (m : C
         exact this tags ht
   exact ⟨truncate_keeps_line _ _ hwf hl', truncate_bound_bytes _ _ hl'⟩
 
+/-- **On the wire**: the bytes the driver writes for a well-formed line (`str.encode()`, C11) end
+with the bytes 13 10 and contain no other byte 13, 10 or 0 — multi-byte characters cannot smuggle
+them in. -/
+theorem wire_line (l : Str) (h : WellFormedLine l) :
+    ∃ body, C11.utf8 l = body ++ [13, 10] ∧ ∀ b ∈ body, b.toNat ≠ 13 ∧ b.toNat ≠ 10 ∧ b.toNat ≠ 0 := by
+  have tk := out_tables_ok
+  obtain ⟨body, rfl, hb⟩ := h
+  refine ⟨C11.utf8 body, by rw [← utf8_CRLF]; simp [C11.utf8], ?_⟩
+  intro b hbm
+  unfold C11.utf8 at hbm
+  rw [List.mem_flatMap] at hbm
+  obtain ⟨c, hc, hbc⟩ := hbm
+  have hcl : cleanChar c = true := by
+    have := hb c hc
+    rw [bad_eq tk] at this
+    cases hcc : cleanChar c
+    · rw [hcc] at this; cases this
+    · rfl
+  exact encChar_clean_bytes c hcl b hbc
+
 /-- the `msg=` branch of the constructor checks nothing: the full statement "every constructed
 message is one line" needs the inventory obligation in `out_tables_ok` -/
 theorem copy_bypasses_assertion :
